@@ -103,3 +103,17 @@ Proof.
   intros H. assert (H2 : option_map n_files (w_nodes w_after 6) = option_map n_files (w_nodes w_before 6)) by (rewrite H; reflexivity).
   rewrite node_t_before, node_t_after in H2. discriminate.
 Qed.
+
+(* what stays of the rejected load in this example: exactly the membership of the element that only the model has,
+   made explicit by restrict_a_only (effective set of its parent: file 0); every other field of the node is the same *)
+Lemma load_merge_conflict_residue :
+  exists (w : world) (e : Parser.etree) (w' : world) (i : id) (n : node),
+    load_tree "b" e w = Val (ER InvalidFileMerge, w') /\ w_nodes w i = Some n /\ n_files n = [] /\
+    w_nodes w' i = Some (set_files n [0]) /\
+    w_files w' = w_files w /\ option_map m_idents (nth_opt (w_models w') 0) = option_map m_idents (nth_opt (w_models w) 0).
+Proof.
+  exists w_before, conf_b, w_after, 6.
+  destruct (w_nodes w_before 6) as [n|] eqn:E; [|vm_compute in E; discriminate].
+  exists n. split; [vm_compute; reflexivity|]. split; [reflexivity|].
+  vm_compute in E. injection E as <-. repeat split; vm_compute; reflexivity.
+Qed.
